@@ -20,7 +20,8 @@ STOPPED_LIKE = (PS.STOPPED, PS.EXITED, PS.FATAL, PS.UNKNOWN)
 class RulesView:
     """What the rules description says, resolved the boring way (named applications and programs only)."""
 
-    def __init__(self, apps, idents, nicks):
+    def __init__(self, apps, idents, nicks, aliases=None):
+        self.xml_aliases = {k: [x.strip() for x in v.split(',') if x.strip()] for k, v in (aliases or {}).items()}
         self.apps = {}
         self.procs = {}
         self.idents = list(idents)
@@ -58,9 +59,18 @@ class RulesView:
         a = self.apps[p['app']]
         text = p['identifiers'] if a['distribution'] == 'ALL_INSTANCES' else a['identifiers']
         items = [x.strip() for x in text.split(',') if x.strip()]
+        # aliases of the rules file expand in place, in declaration order (an alias may use a later one)
+        for name, repl in self.xml_aliases.items():
+            if name in items:
+                pos = items.index(name)
+                items[pos:pos + 1] = repl
         if '*' in items:
             return list(self.idents)
-        return [self.alias[x] for x in items if x in self.alias]
+        out = []
+        for x in items:
+            if x in self.alias and self.alias[x] not in out:
+                out.append(self.alias[x])
+        return out
 
 
 # ---------------------------------------------------------------------------------------------
@@ -375,6 +385,8 @@ class EligibilityMonitor:
         load = rv.procs[ns]['load']
         for ident in rv.permitted(ns):
             t = w.idx_of[ident]
+            if getattr(w, 'local_strategy', False) and t != src:
+                continue    # LOCAL: only the requesting instance is a candidate
             if states.get(ident) != 'RUNNING' or not w.sups[t].alive:
                 continue
             try:
@@ -552,8 +564,9 @@ class Jobs(Driver):
     def build(self, cfg):
         sc = self.scenario(cfg)
         w = World(sc)
-        rv = RulesView(cfg['apps'], w.idents, sc['nicks'])
+        rv = RulesView(cfg['apps'], w.idents, sc['nicks'], cfg.get('aliases'))
         w.job_kind = cfg.get('job_kind', 'application')
+        w.local_strategy = any('LOCAL' in json.dumps(tr) for tr in cfg.get('triggers', []))
         for idx, ns, what in cfg.get('mute', []):
             (w.start_behaviour if what == 'start' else w.stop_behaviour)[(idx, ns)] = 'mute'
         w.monitors += self.monitors(w, cfg, rv)
